@@ -655,6 +655,7 @@ func vRunAppTo(inv vInvocation, stdoutOverride *os.File) (res vRun) {
 			}
 		}()
 		app := GetApp()
+		argv := vSpellingVariant(inv.Args)
 		// urfave/cli keeps its help commands in package-level variables and
 		// mutates them when they run (`help help` makes the help command its own
 		// sub-command). A real process runs one invocation and exits; here many
@@ -662,7 +663,7 @@ func vRunAppTo(inv vInvocation, stdoutOverride *os.File) (res vRun) {
 		// every run.
 		defer vResetCLIGlobals(app)
 		vResetKnownHelp()
-		err := app.Run(append([]string{"hranoprovod-cli"}, inv.Args...))
+		err := app.Run(append([]string{"hranoprovod-cli"}, argv...))
 		if err != nil {
 			res.Err = err.Error()
 			res.Failed = true
@@ -699,12 +700,133 @@ func vResetCLIGlobals(app *cli.App) {
 	vResetKnownHelp()
 }
 
+// ---------------------------------------------------------------------------
+// spelling variants of one invocation: command aliases (reg/register, bal/balance), short and long option names,
+// "--opt value" and "--opt=value". Which spelling is used is a pure function of the argument list, so a case replays
+// identically; the point is that every check exercises all documented spellings over its many cases.
+
+var vGlobalValueFlags = map[string]string{"-b": "--begin", "-e": "--end", "-d": "--database", "-l": "--logfile", "-c": "--config",
+	"--begin": "-b", "--end": "-e", "--database": "-d", "--logfile": "-l", "--config": "-c", "--today": "", "--date-format": "", "--maxdepth": ""}
+var vGlobalBoolFlags = map[string]bool{"--no-color": true, "--no-database": true}
+var vCmdAliases = map[string]string{"reg": "register", "register": "reg", "bal": "balance", "balance": "bal"}
+var vSubValueFlags = map[string]map[string]string{
+	"reg": {"-b": "--begin", "-e": "--end", "-f": "--single-food", "-s": "--single-element", "--begin": "-b", "--end": "-e", "--single-food": "-f", "--single-element": "-s", "--internal-template-name": ""},
+	"bal": {"-b": "--begin", "-e": "--end", "-s": "--single-element", "--begin": "-b", "--end": "-e", "--single-element": "-s"},
+}
+var vSubBoolAliases = map[string]map[string]string{
+	"reg": {"-g": "--group-food", "--group-food": "-g"},
+	"bal": {"-c": "--collapse", "--collapse": "-c"},
+}
+
+func vSpellingVariant(args []string) []string {
+	if os.Getenv("VERIF_NOALIAS") != "" {
+		return args
+	}
+	h := fnv.New64a()
+	for _, a := range args {
+		h.Write([]byte(a))
+		h.Write([]byte{0})
+	}
+	bits := vSplitMix(h.Sum64())
+	next := func() bool { b := bits&1 == 1; bits = vSplitMix(bits); return b }
+	out := make([]string, 0, len(args))
+	i := 0
+	// urfave/cli refuses "-d X --database Y": a flag that occurs twice keeps one spelling within the invocation
+	swap := map[string]bool{}
+	for _, a := range args { // a flag already written as --name=value somewhere keeps the long form everywhere
+		if k := strings.Index(a, "="); k > 2 && strings.HasPrefix(a, "--") {
+			swap[a[:k]] = false
+		}
+	}
+	emit := func(name, alt string, val string, hasVal bool) {
+		n := name
+		if alt != "" {
+			key := name
+			if len(alt) > len(name) {
+				key = alt // the long form names the flag
+			}
+			if _, seen := swap[key]; !seen {
+				swap[key] = next()
+			}
+			if swap[key] == (name == key) { // swap[key] true = use the short form
+				n = alt
+			}
+		}
+		if hasVal && strings.HasPrefix(n, "--") && next() && val != "" {
+			out = append(out, n+"="+val)
+			return
+		}
+		out = append(out, n)
+		if hasVal {
+			out = append(out, val)
+		}
+	}
+	// global part
+	for i < len(args) {
+		a := args[i]
+		if alt, ok := vGlobalValueFlags[a]; ok && i+1 < len(args) {
+			emit(a, alt, args[i+1], true)
+			i += 2
+			continue
+		}
+		if vGlobalBoolFlags[a] || (strings.HasPrefix(a, "--") && strings.Contains(a, "=")) {
+			if k := strings.Index(a, "="); k > 0 {
+				if alt, ok := vGlobalValueFlags[a[:k]]; ok { // "--database=X": remember that this flag keeps its long form
+					key := a[:k]
+					if len(alt) > len(key) {
+						key = alt
+					}
+					swap[key] = false
+				}
+			}
+			out = append(out, a)
+			i++
+			continue
+		}
+		break
+	}
+	if i >= len(args) {
+		return out
+	}
+	cmd := args[i]
+	canon := cmd
+	if cmd == "register" {
+		canon = "reg"
+	}
+	if cmd == "balance" {
+		canon = "bal"
+	}
+	if alt, ok := vCmdAliases[cmd]; ok && next() {
+		out = append(out, alt)
+	} else {
+		out = append(out, cmd)
+	}
+	i++
+	vf, bf := vSubValueFlags[canon], vSubBoolAliases[canon]
+	for i < len(args) {
+		a := args[i]
+		if alt, ok := vf[a]; ok && i+1 < len(args) {
+			emit(a, alt, args[i+1], true)
+			i += 2
+			continue
+		}
+		if alt, ok := bf[a]; ok {
+			emit(a, alt, "", false)
+			i++
+			continue
+		}
+		out = append(out, a) // anything else (sub-command words, other flags, positional arguments) is kept as it is
+		i++
+	}
+	return out
+}
+
 // vRunBin runs the real binary as a separate process.
 func vRunBin(inv vInvocation, timeout time.Duration) vRun {
 	if vRealBin == "" {
 		vFault("VERIF_BIN not set")
 	}
-	cmd := exec.Command(vRealBin, inv.Args...)
+	cmd := exec.Command(vRealBin, vSpellingVariant(inv.Args)...)
 	env := []string{"PATH=/usr/bin:/bin", "HOME=" + vScratchDir()}
 	tz := inv.TZ
 	if tz == "" {
